@@ -263,8 +263,9 @@ func (e *Engine) displayLine() {
 	e.suggested.Set([]rune(line)...)
 	core.DisplayLine(&e.suggested, e.startCols)
 
-	// Adjust the cursor if the line fits exactly in the terminal width.
-	if e.lineCol == 0 {
+	// Adjust the cursor if the line fits exactly in the terminal width
+	// (an empty line after an empty prompt does not fill anything).
+	if e.lineCol == 0 && e.lineRows > 0 {
 		fmt.Print(term.NewlineReturn)
 		fmt.Print(term.ClearLineAfter)
 	}
